@@ -1,82 +1,17 @@
-import TinsModel.Wire.Transport.Family
-import TinsModel.Basic.CursorLemmas
-import TinsModel.Wire.ChainLemmas
-import TinsModel.Wire.IfaceLemmas
+import TinsModel.Wire.Transport.ThUdp
+import TinsModel.Wire.Transport.ThTcpParse
+import TinsModel.Wire.Transport.ThTcpWrite
+import TinsModel.Wire.Transport.ThTcpReparse
+import TinsModel.Wire.Transport.ThTcpApi
+import TinsModel.Wire.Transport.ThFamily
 /-
-  Per-layer theorems of the Transport family, for the four wire properties:
-    C01  parse_safe      — the parsing constructor never faults and throws only malformed_packet
-    C02  writesOnly      — write_serialization succeeds on a region ≥ header+trailer, keeps its length and
-                           leaves the inner region untouched (`Wire.WritesOnly`)
-    C03  reparse         — parsing what was written gives back the non-derived fields
+  Theorems of the Transport family (UDP, TCP with options) for the four wire properties; see the file headers:
+    Lemmas        helper lemmas (stream closed forms, slices, codec bounds)
+    ThUdp         UDP: parse_safe / consumes / inv, writesOnly, reparse, setters
+    ThTcpParse    TCP C01: option loop safety (induction over fuel), parse_ok (invariant, canonical options, ≤ 40 bytes)
+    ThTcpWrite    TCP C02: size function = writer (induction over the option list), closed form of write_serialization,
+                  WritesOnly; KF-C02-WTcp-1 (statement, refutation, partial)
+    ThTcpReparse  TCP C03: header decode, option-list round trip, padding read back as END, tcp_reparse
+    ThTcpApi      TCP C04: apply_inv, look-up laws, typed codecs, last-write map, flag accessors
+    ThFamily      family-level theorems in the shape of L2/ThFamily.lean
 -/
-namespace Tins.Wire.Transport
-open Tins Tins.Wire
-
-/-- outcome classes of a parsing constructor -/
-def ParseSafe {α} (r : Out α) : Prop := (∃ a, r = .ok a) ∨ r = .throw .malformedPacket
-
-theorem readBE_safe (c : Cursor) (n : Nat) (h : c.Inv) :
-    (∃ v c', c.readBE n = .ok (v, c') ∧ c'.Inv ∧ c'.size = c.size - n ∧ n ≤ c.size ∧ c'.mem = c.mem.drop n
-        ∧ v = Cursor.beNat (c.mem.take n))
-    ∨ (c.readBE n = .throw .malformedPacket ∧ c.size < n) := by
-  rcases Cursor.read_spec c n h with ⟨bs, c', he, hi, _, hs, hn, hb, hm⟩ | ⟨he, hlt⟩
-  · left; exact ⟨Cursor.beNat bs, c', by simp [Cursor.readBE, he, bind, Out.bind], hi, hs, hn, hm, by rw [hb]⟩
-  · right; exact ⟨by simp [Cursor.readBE, he, bind, Out.bind], hlt⟩
-
-theorem rest_safe (site : String) (c : Cursor) (h : c.Inv) : ∃ bs, Cursor.rest site c = .ok bs ∧ bs = c.mem.take c.size := by
-  unfold Cursor.rest rdN
-  have h' : c.size ≤ c.mem.length := h
-  simp [h']
-
-/-- **C01 / UDP**: for every byte string the parsing constructor returns a packet or throws `malformed_packet`;
-    it never reads outside the buffer. -/
-theorem udp_parse_safe (b : Bytes) : ParseSafe (Udp.parse b) := by
-  unfold Udp.parse
-  have h0 := Cursor.ofBytes_inv b
-  rcases readBE_safe _ 2 h0 with ⟨v1, c1, e1, i1, _⟩ | ⟨e1, _⟩
-  · rcases readBE_safe c1 2 i1 with ⟨v2, c2, e2, i2, _⟩ | ⟨e2, _⟩
-    · rcases readBE_safe c2 2 i2 with ⟨v3, c3, e3, i3, _⟩ | ⟨e3, _⟩
-      · rcases readBE_safe c3 2 i3 with ⟨v4, c4, e4, i4, _⟩ | ⟨e4, _⟩
-        · rcases rest_safe "UDP::UDP RawPDU" c4 i4 with ⟨bs, er, _⟩
-          left
-          simp only [e1, e2, e3, e4, bind, Out.bind]
-          split
-          · simp only [er]; exact ⟨_, rfl⟩
-          · exact ⟨_, rfl⟩
-        · right; simp only [e1, e2, e3, e4, bind, Out.bind]
-      · right; simp only [e1, e2, e3, bind, Out.bind]
-    · right; simp only [e1, e2, bind, Out.bind]
-  · right; simp only [e1, bind, Out.bind]
-
-
-/-- the `LayerSem` of a UDP object in context `cx` (what `Registry.sems` builds) -/
-def udpSem (cx : Ctx) (u : Udp) : LayerSem := { name := "UDP", hdr := 8, trl := 0, write := u.write cx }
-
-theorem udp_headerBytes_length (u : Udp) : u.headerBytes.length = 8 := by
-  simp [Udp.headerBytes]
-
-/-- **C02 / UDP**: in every context and on every region of at least 8 bytes `write_serialization` succeeds,
-    keeps the region's length and touches only the 8 header bytes. -/
-theorem udp_writesOnly (cx : Ctx) (u : Udp) : WritesOnly (udpSem cx u) := by
-  apply writesOnly_of_header_only _ rfl
-  intro region hr
-  simp only [udpSem] at hr
-  have hlen : ({ u with check := 0, len := (8 + cx.innerSize) % 65536 } : Udp).headerBytes.length = 8 :=
-    udp_headerBytes_length _
-  have hw := writeAtStart_eq region _ (by rw [hlen]; exact hr)
-  simp only [udpSem, Udp.write, hw, bind, Out.bind]
-  generalize hr1 : ({ u with check := 0, len := (8 + cx.innerSize) % 65536 } : Udp).headerBytes ++
-      List.drop ({ u with check := 0, len := (8 + cx.innerSize) % 65536 } : Udp).headerBytes.length region = r1
-  have hr1len : r1.length = region.length := by rw [← hr1]; exact length_prefix_replaced _ _ (by rw [hlen]; exact hr)
-  have hr1drop : r1.drop 8 = region.drop 8 := by
-    rw [← hr1]; exact drop_prefix_replaced _ _ 8 (by rw [hlen]; exact Nat.le_refl 8)
-  split
-  · exact ⟨r1, rfl, hr1len, hr1drop⟩
-  · rename_i ps _
-    have hp := poke_eq "UDP::write_serialization check" r1 (le16 (if not16 (fold16 ((ps + sumRange r1) % 4294967296)) = 0 then 65535
-        else not16 (fold16 ((ps + sumRange r1) % 4294967296)))) 6 (by simp [le16]; omega)
-    refine ⟨_, hp, ?_, ?_⟩
-    · rw [length_patched _ _ _ (by simp [le16]; omega)]; exact hr1len
-    · rw [drop_patched _ _ 6 8 (by simp [le16]) (by simp [le16]; omega)]; exact hr1drop
-
-end Tins.Wire.Transport
